@@ -4,5 +4,5 @@
 P=$1; C=$2; shift 2
 git -C /tmp/dev_repo checkout -q -- . && git -C /tmp/dev_repo apply "$P" || exit 2
 VERIF_REPO=/tmp/dev_repo /verif/build.sh rt /verif/build_dev 2>&1 | tail -1
-/verif/build_dev/runner_rt "$C" "$@" 2>&1 | tail -2 | cut -c1-1500
+/verif/build_dev/runner_rt "$C" "$@" 2>&1 | tail -2
 git -C /tmp/dev_repo checkout -q -- .
